@@ -18,12 +18,12 @@ Fixpoint by_name (n : string) (l : list (string * nat)) : option nat :=
 
 (* every FEEMS member has a protobuf member of the same number and the same name *)
 Definition same_numbering (upto : nat) (feems pb : list (string * nat)) : bool :=
-  forallb (fun e => (upto <? snd e) || match by_number (snd e) pb with Some n => name_eq (fst e) n | None => false end) feems.
+  forallb (fun e => Nat.ltb upto (snd e) || match by_number (snd e) pb with Some n => name_eq (fst e) n | None => false end) feems.
 Definition pairs_eqb (a b : list (string * nat)) : bool :=
-  Nat.eqb (length a) (length b) && forallb (fun p => String.eqb (fst (fst p)) (fst (snd p)) && Nat.eqb (snd (fst p)) (snd (snd p))) (combine a b).
+  Nat.eqb (List.length a) (List.length b) && forallb (fun p => String.eqb (fst (fst p)) (fst (snd p)) && Nat.eqb (snd (fst p)) (snd (snd p))) (combine a b).
 (* the members are numbered lo, lo+1, ..., hi: the model's range test is membership *)
 Definition numbered (lo hi : nat) (l : list (string * nat)) : bool :=
-  forallb (fun p => Nat.eqb (fst p) (snd p)) (combine (map snd l) (seq lo (S hi - lo))) && Nat.eqb (length l) (S hi - lo).
+  forallb (fun p => Nat.eqb (fst p) (snd p)) (combine (map snd l) (seq lo (S hi - lo))) && Nat.eqb (List.length l) (S hi - lo).
 Definition has (n : string) (v : nat) (l : list (string * nat)) : bool :=
   match by_name n l with Some w => Nat.eqb v w | None => false end.
 
